@@ -440,7 +440,8 @@ WiringPortRef wire_node(Scope &sc, const JV &st, std::vector<WiringPortRef> ins)
         if (thrown) {
             extra("throw"); e += "true"; e += "}]";
             if (g_ctx) g_ctx->add(std::move(e));
-            throw std::runtime_error("boom:" + cfg->label + ":eval:" + std::to_string(ord));
+            // optionally a message that runs over several lines (a validation report): it must arrive whole
+            throw std::runtime_error("boom:" + cfg->label + ":eval:" + std::to_string(ord) + (cfg->thr.bool_or("multiline", false) ? "\n  second line of " + cfg->label + "\r\n  third line" : std::string{}));
         }
         if (cfg->toggle.is_obj() && cfg->n_in > 0) {
             auto in = v.input(t); auto b = in.as_bundle();
